@@ -11,5 +11,7 @@ CONSTANTS
   AllowEnd = FALSE
   MaxRequery = 0
   FixCommitState = TRUE
-INVARIANTS TypeOK InOrderNoDup AllDelivered SlotsSuffice SlotBound SMPSound
+  SeqSMP = FALSE
+  FixSMPReset = FALSE
+INVARIANTS TypeOK InOrderNoDup AllDelivered SlotsSuffice SlotBound SMPSound RunOutcomeKnown
 CHECK_DEADLOCK FALSE
